@@ -75,6 +75,22 @@ Report(failed, i) == \A c \in failed : PrintT(<<"FAIL", c[1], c[2], i>>)
 
 Ev == TraceLog[l]
 
+\* an event whose arrays do not even have the scenario's dimensions cannot be decoded: it is reported
+\* under C09 (row length) and skipped, so that the monitor never indexes outside a row
+RowsOK(rs) == \A i \in 1..Len(rs) : Len(rs[i]) = RowLen
+ChangesOK(cs) == \A i \in 1..Len(cs) : Len(cs[i][2]) = RowLen /\ cs[i][1] \in 0..(NHosts - 1)
+ObsOK(o) ==
+    /\ ~("malformed" \in DOMAIN o)
+    /\ ChangesOK(o.explicit) /\ Len(o.aux) = RowLen
+    /\ \A i \in 1..Len(o.same) : o.same[i] \in 0..(NHosts - 1)
+Malformed(ev) ==
+    CASE ev.ev = "create" -> ~(Len(ev.tensor) = NHosts /\ RowsOK(ev.tensor) /\ ObsOK(ev.obs))
+      [] ev.ev \in {"reset", "step", "genstep"} ->
+           ~(ChangesOK(ev.pre_rows) /\ ChangesOK(ev.post_rows) /\ ObsOK(ev.obs))
+      [] ev.ev \in {"goal", "mask"} -> ~ChangesOK(ev.pre_rows)
+      [] ev.ev = "readable" -> ~RowsOK(ev.rows)
+      [] OTHER -> FALSE
+
 ---------------------------------------------------------------------------
 Init ==
     /\ l = 1
@@ -113,7 +129,7 @@ CreateClauses(ev, rows) ==
          /\ ev.obs.aux = ZeroRow>> >>
 
 Create ==
-    /\ l <= N /\ Ev.ev = "create"
+    /\ l <= N /\ Ev.ev = "create" /\ ~Malformed(Ev)
     /\ LET ev == Ev  e == ev.env  rows == ev.tensor IN
        /\ Report(Failed(CreateClauses(ev, rows)), ev.i)
        /\ raw' = Put(raw, e, rows)
@@ -149,7 +165,7 @@ ResetClauses(ev, rows, st) ==
        <<"C13", "state_not_modified_between_calls", Len(ev.pre_rows) = 0>> >>
 
 ResetEv ==
-    /\ l <= N /\ Ev.ev = "reset"
+    /\ l <= N /\ Ev.ev = "reset" /\ ~Malformed(Ev)
     /\ LET ev == Ev  e == ev.env
            pre == ApplyRows(raw[e], ev.pre_rows)
            rows == ApplyRows(pre, ev.post_rows)
@@ -263,7 +279,7 @@ GroupClauses(ev, E) ==
                  \A h \in Hosts : \A c \in NZCols(E.obs[h]) : E.obs[h][c] = grp.obs[h][c]>> >>
 
 StepEv ==
-    /\ l <= N /\ Ev.ev \in {"step", "genstep"}
+    /\ l <= N /\ Ev.ev \in {"step", "genstep"} /\ ~Malformed(Ev)
     /\ LET ev == Ev  e == ev.env
            preRows == ApplyRows(raw[e], ev.pre_rows)
            postRows == ApplyRows(preRows, ev.post_rows)
@@ -304,7 +320,7 @@ StepEv ==
 
 \* -------------------------------------------------------------------- goal
 GoalEv ==
-    /\ l <= N /\ Ev.ev = "goal"
+    /\ l <= N /\ Ev.ev = "goal" /\ ~Malformed(Ev)
     /\ LET ev == Ev  e == ev.env
            rows == ApplyRows(raw[e], ev.pre_rows)
            st == IF RowsWellFormed(rows) THEN Decode(rows) ELSE abs[e] IN
@@ -351,7 +367,7 @@ DecodeDoneEv ==
     /\ l' = l + 1
 
 MaskEv ==
-    /\ l <= N /\ Ev.ev = "mask"
+    /\ l <= N /\ Ev.ev = "mask" /\ ~Malformed(Ev)
     /\ LET ev == Ev  st == abs[ev.env] IN
        Report(Failed(<< <<"C11", "mask_one_entry_per_action", Len(ev.mask) = NActions>>,
                         <<"C11", "mask_iff_discovered",
@@ -378,7 +394,7 @@ ReadableMatches(rd, row) ==
 
 \* ev.rows: the raw array that was fed to the public constructor / decoder
 ReadableEv ==
-    /\ l <= N /\ Ev.ev = "readable"
+    /\ l <= N /\ Ev.ev = "readable" /\ ~Malformed(Ev)
     /\ LET ev == Ev IN
        Report(Failed(<< <<"C09", "readable_roundtrip",
                           /\ Len(ev.readable) = Len(ev.rows)
@@ -390,6 +406,34 @@ ReadableEv ==
                              /\ ev.aux_readable.perm = (ev.aux[3] # 0) /\ ev.aux_readable.undef = (ev.aux[4] # 0)>> >>),
               ev.i)
     /\ UNCHANGED <<raw, abs, initRaw, steps, mode, paidVal, paidDisc, prev, grp, ndec, hist>>
+    /\ l' = l + 1
+
+\* ---------------------------------------------------------------- plan end
+\* C16: the last step of a replayed plan returned terminated, and the state it left is a goal state
+PlanEndEv ==
+    /\ l <= N /\ Ev.ev = "plan_end"
+    /\ Report(Failed(<< <<"C16", "plan_replays_to_terminated", Ev.term /\ Ev.goal /\ Goal(abs[Ev.env])>> >>), Ev.i)
+    /\ UNCHANGED <<raw, abs, initRaw, steps, mode, paidVal, paidDisc, prev, grp, ndec, hist>>
+    /\ l' = l + 1
+
+\* --------------------------------------------------------------- malformed
+MalformedEv ==
+    /\ l <= N /\ Malformed(Ev)
+    /\ PrintT(<<"FAIL", "C09", "row_length", Ev.i>>)
+    /\ IF Ev.ev = "create"
+         THEN LET e == Ev.env IN
+              /\ raw' = Put(raw, e, EncodeState(InitSt))
+              /\ initRaw' = Put(initRaw, e, EncodeState(InitSt))
+              /\ abs' = Put(abs, e, InitSt)
+              /\ steps' = Put(steps, e, 0)
+              /\ mode' = Put(mode, e, [fo |-> Ev.modes.fo, fa |-> Ev.modes.fa, f1 |-> Ev.modes.f1,
+                                      low |-> Ev.adv.low, high |-> Ev.adv.high])
+              /\ ndec' = Put(ndec, e, 0)
+              /\ paidVal' = Put(paidVal, e, {})
+              /\ paidDisc' = Put(paidDisc, e, {})
+              /\ prev' = Put(prev, e, [valid |-> FALSE])
+         ELSE UNCHANGED <<raw, abs, initRaw, steps, mode, paidVal, paidDisc, prev, ndec>>
+    /\ UNCHANGED <<grp, hist>>
     /\ l' = l + 1
 
 \* ------------------------------------------------------------------ raised
@@ -404,12 +448,12 @@ RaisedEv ==
 \* an event kind this monitor has no clauses for (validated by another module)
 OtherEv ==
     /\ l <= N /\ Ev.ev \notin {"create", "reset", "step", "genstep", "goal", "raised", "actions", "decode",
-                              "decode_done", "mask", "readable"}
+                              "decode_done", "mask", "readable", "plan_end"}
     /\ UNCHANGED <<raw, abs, initRaw, steps, mode, paidVal, paidDisc, prev, grp, ndec, hist>>
     /\ l' = l + 1
 
 Next == Create \/ ResetEv \/ StepEv \/ GoalEv \/ RaisedEv \/ ActionsEv \/ DecodeEv \/ DecodeDoneEv
-        \/ MaskEv \/ ReadableEv \/ OtherEv
+        \/ MaskEv \/ ReadableEv \/ PlanEndEv \/ MalformedEv \/ OtherEv
 
 Spec == Init /\ [][Next]_vars
 
